@@ -40,33 +40,29 @@ Theorem C24_find_irreducible_binary_smallest_bounded : forall d, 1 <= d <= 12 ->
 Proof. exact find_irreducible2_smallest_bounded. Qed.
 Print Assumptions C24_find_irreducible_binary_smallest_bounded.
 
-(** generic class: "smallest monic irreducible above a" is FALSE of the code as written (X is skipped) *)
-Theorem C24_next_irred_generic_refuted : exists p a b c,
-  prime p /\ next_irreducible p 600 (from_int p a) = Ok b /\
-  a < c < to_int p b /\ last (from_int p c) 0 = 1 /\ is_irreducible p (from_int p c) = Ok true.
-Proof. exact next_irred_generic_refuted. Qed.
-Print Assumptions C24_next_irred_generic_refuted.
-Theorem C24_next_irreducible_skips_X_bounded : forall p, In p [3; 5; 7; 11; 13] ->
-  forall a, 0 <= a < p -> next_irreducible p 600 (from_int p a) = Ok [1; 1] /\ is_irreducible p [0; 1] = Ok true.
-Proof. exact next_irreducible_skips_X_bounded. Qed.
-Print Assumptions C24_next_irreducible_skips_X_bounded.
-(** ... and X is the only casualty on the bounded domains: from a >= p the search is correct *)
-Theorem C24_next_irreducible_from_p_partial : forall p N, In (p, N) [(2, 512); (3, 243); (5, 625); (7, 343)] ->
-  forall a, p <= a < N ->
+(** generic class: next_irreducible(a) is the least monic irreducible above a, for EVERY a of the bounded
+    domains (after the repair of F-C24-1 the candidate X is no longer skipped) *)
+Theorem C24_next_irreducible_generic_bounded : forall p N, In (p, N) [(2, 512); (3, 243); (5, 625); (7, 343)] ->
+  forall a, 0 <= a < N ->
   exists b, next_irreducible p 600 (from_int p a) = Ok b /\ a < to_int p b /\ monic_irr p (to_int p b) = true /\
             forall c, a < c < to_int p b -> monic_irr p c = false.
-Proof. exact next_irreducible_bounded_from_p. Qed.
-Print Assumptions C24_next_irreducible_from_p_partial.
-Theorem C24_find_irreducible_partial : forall p N, In (p, N) [(2, 512); (3, 243); (5, 625); (7, 343)] ->
-  forall d, p <= p ^ d - 1 < N ->
+Proof. exact next_irreducible_bounded. Qed.
+Print Assumptions C24_next_irreducible_generic_bounded.
+Theorem C24_next_irreducible_finds_X_bounded : forall p, In p [3; 5; 7; 11; 13] ->
+  forall a, 0 <= a < p -> next_irreducible p 600 (from_int p a) = Ok [0; 1].
+Proof. exact next_irreducible_finds_X_bounded. Qed.
+Print Assumptions C24_next_irreducible_finds_X_bounded.
+(** find_irreducible(p, d) is the smallest monic irreducible of degree d (d = 1 included), bounded domains *)
+Theorem C24_find_irreducible_bounded : forall p N, In (p, N) [(2, 512); (3, 243); (5, 625); (7, 343)] ->
+  forall d, 0 <= p ^ d - 1 < N ->
   exists b, find_irreducible p 600 d = Ok b /\ p ^ d - 1 < to_int p b /\ monic_irr p (to_int p b) = true /\
             forall c, p ^ d - 1 < c < to_int p b -> monic_irr p c = false.
 Proof. exact find_irreducible_bounded. Qed.
-Print Assumptions C24_find_irreducible_partial.
+Print Assumptions C24_find_irreducible_bounded.
 
 (** Non-vacuity: X^2+1 over GF(3) is irreducible, X^2+2 = (X+1)(X+2) is not; binary X^3+X+1 *)
 Example C24_nonvacuous :
   is_irreducible 3 [1; 0; 1] = Ok true /\ is_irreducible 3 [2; 0; 1] = Ok false /\
   brute_irreducible 3 [1; 0; 1] = true /\ is_irreducible2 11 = Ok true /\
-  next_irreducible2 600 11 = Ok 13 /\ next_irreducible 3 600 [] = Ok [1; 1].
+  next_irreducible2 600 11 = Ok 13 /\ next_irreducible 3 600 [] = Ok [0; 1].
 Proof. vm_compute. auto 10. Qed.
